@@ -80,6 +80,7 @@ def storeStep (st : StoreState) (ws : List String) : StoreState × String × Str
     match bytesOfHex? k with
     | some k => same st (optHex (mapGet st.cur k))
     | none => same st "bad-op"
+  | ["vcheck"] => same st "ok"
   | ["rotate"] => same st "ok"
   | ["flush"] => same st "ok"
   | ["flushimm"] => same st "ok"
